@@ -865,9 +865,31 @@ def family_e4(quick: bool):
         yield ops
 
 
+def family_e5(quick: bool):
+    """
+    One subject, two registrations of different age at the same attester: an expired one and a fresh one; the subject
+    advertises both attributes, in either order.
+    """
+    for (ha, hb), w, first, subj in itertools.product(((0, 1), (1, 0), (0, 2), (3, 0)), (3, 4, 5, 6, 7), (0, 1), (S1, S2)):
+        ops = [["reg", A, ha, 0, subj, 0], ["wait", w], ["reg", A, hb, 0, subj, 0]]
+        advs = [["adv", subj, A, hb, 0, 0], ["adv", subj, A, ha, 0, 0]]
+        ops += advs if first == 0 else advs[::-1]
+        yield ops
+        yield ops + [["wait", 1], ["adv", subj, A, ha, 0, 0]]
+
+
+def family_e6(quick: bool):
+    """
+    Every hash of the pool (incl. the 20-byte one) x every registered metadata x every advertised metadata x name.
+    """
+    for h, rmeta, ameta, nm, subj in itertools.product(range(len(HASHES)), range(len(REG_META)), range(len(ADV_META)),
+                                                       (0, 1), (S1, M)):
+        yield [["reg", A, h, 0, subj, rmeta], ["adv", subj, A, h, nm, ameta]]
+
+
 def _families(quick: bool) -> list:
     out = []
-    for fam in (family_e1, family_e2, family_e3, family_e4):
+    for fam in (family_e1, family_e2, family_e3, family_e4, family_e5, family_e6):
         out.extend(fam(quick))
     return out
 
